@@ -74,6 +74,29 @@ func (fr *Frame) markEscapes(ins ssa.Instruction) {
 	}
 }
 
+// assumeNotLocal: a reference obtained from a callee (or from memory) can denote
+// a cell of this function only if that cell's address has escaped; for every
+// cell that has not, the reference is different from it.
+func (e *Enc) assumeNotLocal(fr *Frame, v Term, t types.Type) {
+	refs := e.refPaths(t, v, 2)
+	if len(refs) == 0 {
+		return
+	}
+	var cs []Term
+	for f := fr; f != nil; f = f.parent {
+		for _, lc := range f.locals {
+			if !f.escaped[lc.alloc] {
+				for _, ref := range refs {
+					cs = append(cs, "(not (= "+ref+" "+lc.ref+"))")
+				}
+			}
+		}
+	}
+	if len(cs) > 0 && len(cs) <= 24 {
+		e.B.assume(and(cs...))
+	}
+}
+
 // restoreLocals re-establishes, after a whole-heap havoc (a callee or loop that
 // "modifies heaps", or an abstracted call), the contents of the local cells
 // whose address has not left the function so far: no callee can reach them.
